@@ -2,8 +2,8 @@ package props
 
 import (
 	"encoding/json"
-	"net/http"
 	"net/http/httptest"
+	"strings"
 
 	"github.com/go-openapi/loads"
 	"github.com/go-openapi/runtime"
@@ -18,29 +18,41 @@ import (
 //
 //	R <operation consumes> <API default consumes> <param kind n|b|f|q> => <route.Consumes>
 //
-// param kind: the operation declares no parameter / a body parameter / a formData parameter / a query one.
+// param kind: the operation declares no parameter / a body parameter / a formData parameter / a query one;
+// widened: h a header parameter, F a formData parameter of type file, m a body and a query parameter.
+// Not carried by the line (irrelevant to what is filed, chosen by a checksum of it): the operation's
+// method (any of the seven a path item has), and whether the list is declared on the operation,
+// document-wide, or on the operation beside a different document-wide list (c06Place).
 func c06ExecR(in []string) []string {
 	if len(in) != 4 {
 		return []string{"INVALID"}
 	}
 	opConsumes, dflt := proto.UnL(in[1]), proto.UnB(in[2])
 	op := map[string]interface{}{"operationId": "opR", "responses": map[string]interface{}{"200": map[string]interface{}{"description": "ok"}}}
+	body := map[string]interface{}{"name": "body", "in": "body", "schema": map[string]interface{}{}}
+	query := map[string]interface{}{"name": "q", "in": "query", "type": "string"}
 	switch in[3] {
 	case "n":
 	case "b":
-		op["parameters"] = []interface{}{map[string]interface{}{"name": "body", "in": "body", "schema": map[string]interface{}{}}}
+		op["parameters"] = []interface{}{body}
 	case "f":
 		op["parameters"] = []interface{}{map[string]interface{}{"name": "f", "in": "formData", "type": "string"}}
 	case "q":
-		op["parameters"] = []interface{}{map[string]interface{}{"name": "q", "in": "query", "type": "string"}}
+		op["parameters"] = []interface{}{query}
+	case "h":
+		op["parameters"] = []interface{}{map[string]interface{}{"name": "X-H", "in": "header", "type": "string"}}
+	case "F":
+		op["parameters"] = []interface{}{map[string]interface{}{"name": "f", "in": "formData", "type": "file"}}
+	case "m":
+		op["parameters"] = []interface{}{query, body}
 	default:
 		return []string{"INVALID"}
 	}
-	if len(opConsumes) > 0 {
-		op["consumes"] = opConsumes
-	}
-	doc := map[string]interface{}{"swagger": "2.0", "info": map[string]interface{}{"title": "c06r", "version": "1"},
-		"paths": map[string]interface{}{"/op": map[string]interface{}{"post": op}}}
+	mix := c05Mix(in)
+	method := c06Methods[mix%uint32(len(c06Methods))]
+	doc := map[string]interface{}{"swagger": "2.0", "info": map[string]interface{}{"title": "c06r", "version": "1"}}
+	c06Place(doc, op, "consumes", opConsumes, mix>>4)
+	doc["paths"] = map[string]interface{}{"/op": map[string]interface{}{strings.ToLower(method): op}}
 	raw, err := json.Marshal(doc)
 	if err != nil {
 		return []string{"INVALID"}
@@ -51,10 +63,10 @@ func c06ExecR(in []string) []string {
 	}
 	api := untyped.NewAPI(d).WithoutJSONDefaults()
 	api.DefaultConsumes = dflt
-	api.RegisterOperation("post", "/op", runtime.OperationHandlerFunc(func(interface{}) (interface{}, error) { return nil, nil }))
+	api.RegisterOperation(method, "/op", runtime.OperationHandlerFunc(func(interface{}) (interface{}, error) { return nil, nil }))
 	ctx := middleware.NewContext(d, api, nil)
 	_ = ctx.APIHandler(nil) // builds the router
-	route, _, ok := ctx.RouteInfo(httptest.NewRequest(http.MethodPost, "/op", nil))
+	route, _, ok := ctx.RouteInfo(httptest.NewRequest(method, "/op", nil))
 	if !ok {
 		return []string{"NOROUTE"}
 	}
@@ -62,12 +74,16 @@ func c06ExecR(in []string) []string {
 }
 
 func c06GenR(r *proto.Rng, n int, emit func(in ...string)) {
-	types := []string{"application/json", "text/plain", "application/xml", "application/x-www-form-urlencoded", "application/json; charset=utf-8", "*/*"}
+	types := []string{"application/json", "text/plain", "application/xml", "application/x-www-form-urlencoded", "application/json; charset=utf-8", "*/*",
+		"multipart/form-data", "text/*", "application/octet-stream", "text/plain;q=1"}
 	for i := 0; i < n; i++ {
 		var cons []string
-		for j, k := 0, r.Intn(3); j < k; j++ {
+		for j, k := 0, r.Intn(4); j < k; j++ {
 			cons = append(cons, types[r.Intn(len(types))])
 		}
-		emit("R", proto.L(cons), proto.B(r.Pick("application/json", "application/json", "text/plain", "")), r.Pick("n", "b", "f", "q"))
+		// the default: mostly a type of the pool (so that it is in the list now and then), also one spelled
+		// with capitals (found in a lower-case list all the same) or carrying a parameter
+		dflt := r.Pick("application/json", "application/json", "text/plain", "", "application/xml", "Application/JSON", "text/plain;q=1", "multipart/form-data", "*/*")
+		emit("R", proto.L(cons), proto.B(dflt), r.Pick("n", "b", "f", "q", "h", "F", "m"))
 	}
 }
